@@ -150,6 +150,34 @@ def real(f, q):
     return [d[0] for d in cur.description], jg.canon_times(cur.fetchall()), sql
 
 
+SWAP = {"one_to_many": "one_to_one", "one_to_one": "one_to_many"}
+
+
+def real_after_edit(f, q):
+    """history: the layer is first built with every parent-side relationship declared at the OTHER cardinality (one_to_many <-> one_to_one) and answers the
+    query once; then the declarations are corrected in place (rel.type = ...; graph.build_adjacency()) and the query is asked again.  None if nothing to edit."""
+    import copy
+    if not any(r["type"] in SWAP for m in f["models"] for r in m["rels"]):
+        return None
+    g = copy.deepcopy(f)
+    for m in g["models"]:
+        for r in m["rels"]:
+            r["type"] = SWAP.get(r["type"], r["type"])
+    dbm, mbm, drefs, mrefs = field_names(q)
+    L = jg.real_layer(g, mbm, dbm)
+    kw = dict(metrics=mrefs, dimensions=drefs, filters=[jg.jsql(e, m + ".") for m, e in q["filters"]])
+    try:
+        L.conn.execute(L.compile(**kw)).fetchall()
+    except Exception:
+        pass
+    for m in f["models"]:
+        for have, want in zip(L.graph.models[m["name"]].relationships, m["rels"]):
+            have.type = want["type"]
+    L.graph.build_adjacency()
+    cur = L.conn.execute(L.compile(**kw))
+    return jg.canon_times(cur.fetchall())
+
+
 def coq_term(f, q):
     dims = "; ".join("{| pd_model := %s; pd_expr := %s |}" % (lib.coq_string(m), sg.coq(e)) for m, e in q["dims"])
     mets = "; ".join("{| pmt_model := %s; pmt_measure := M (%s) %s [%s] |}" % (lib.coq_string(m), sg.COQ_AGG[a], "None" if e is None else "(Some %s)" % sg.coq(e),
@@ -266,6 +294,18 @@ def run(c):
             c.violation("multi-model query fails: %s: %s" % (type(err).__name__, str(err)[:150]), {"kind": "case", "forest": f, "query": q, "error": str(err)[:600]})
             continue
         stats["compared"] += 1
+        if i % 2 == 0 and len(slots.split(",")) > 1:
+            from harness import dbutil
+            try:
+                again = real_after_edit(f, q)
+            except Exception as e:
+                again = "error: %s" % str(e)[:200]
+            if again is not None:
+                stats["edited"] = stats.get("edited", 0) + 1
+                if isinstance(again, str) or dbutil.canon_rows(again) != dbutil.canon_rows(rows):
+                    c.violation("after the relationship cardinalities were corrected in place (and the adjacency rebuilt), the query returns other rows than on a layer declared that way from the start",
+                                {"kind": "edited", "forest": f, "query": q, "fresh_rows": [list(map(str, r)) for r in rows[:10]], "rows_after_edit": again if isinstance(again, str) else [list(map(str, r)) for r in again[:10]]})
+                    continue
         srows, mrows = sg.parse_show(s_line), sg.parse_show(m_line)
         # known-finding classes, per metric column
         exempt_spec, exempt_model, kinds = set(), set(), set()
@@ -340,6 +380,11 @@ def replay(path):
         return 1
     print(sql)
     print(rows)
+    if r.get("kind") == "edited":
+        from harness import dbutil
+        again = real_after_edit(f, q)
+        print("after the edit history:", again)
+        return 0 if again is None or dbutil.canon_rows(again) == dbutil.canon_rows(rows) else 1
     if not out.startswith("OK#"):
         return 0
     _, m_line, s_line, flags, slots = out.split("#")
